@@ -103,6 +103,10 @@ pub(crate) fn parse_directive(jsx_attr: &JSXAttr, is_component: bool) -> Directi
                                 modifiers = Some(parse_modifiers(elems));
                             }
                         }
+                        if modifiers.is_none() {
+                            // `[value, arg]` has no modifier list: the `_suffix` modifiers apply
+                            modifiers = Some(splitted.map(Atom::from).collect());
+                        }
                     }
                 }
             } else {
